@@ -267,6 +267,8 @@ class C07(Prop):
             "tls": gen.weighted([(3, st.just(False)), (1, st.just(True))]),
             # an earlier connection in this process (same WebSocket object or another) and how it ended
             "prelude": gen.prelude(),
+            # a second live connection in the same process (interleaved with this one, or blocked in a send)
+            "companion": gen.companion(6),
             "reactions": st.lists(rule, max_size=4), "copts": opts,
             "addrs": st.lists(st.sampled_from(["ok", "refused", "timeout", "sockerr"]), min_size=1, max_size=3),
             # "every fault": one non-fatal write fault (the k-th sendall times out / raises)
